@@ -4,4 +4,10 @@ package core
 
 var verifHarnesses = map[string]func(){
 	"VerifC18Exec": VerifC18Exec,
+	"VerifC04Step": VerifC04Step,
+	"VerifC06Walk": VerifC06Walk,
+	"VerifC06Step": VerifC06Step,
+	"VerifC07Walk": VerifC07Walk,
+	"VerifC07Step": VerifC07Step,
+	"VerifC07Compile": VerifC07Compile,
 }
